@@ -31,6 +31,24 @@ Pick(q, IsKey(_), Rank(_)) ==
   LET cand == {i \in DOMAIN q : IsKey(q[i][1])} IN
   IF cand = {} THEN NONE
   ELSE LET best == CHOOSE i \in cand : \A j \in cand : Rank(Canon(q[i][1])) <= Rank(Canon(q[j][1])) IN q[best][2][1]
+(* NAMED DEVIATION (keyed known finding quals:rank0-key-unset): the code's left fold over the qualifiers IN THE ORDER
+   GIVEN, whose "nothing seen yet" test (`not feature_key`) is also true for the rank-0 key itself -- so a rank-0 key seen
+   earlier is overridden by any recognised key seen later.  CodeFold is that fold, order-dependent on purpose: it
+   predicts the wrong answer the code gives, and only that answer is filed under the finding. *)
+RECURSIVE CodeFoldNameFrom(_, _, _, _)
+CodeFoldNameFrom(q, i, bestRank, bestVal) ==
+  IF i > Len(q) THEN bestVal
+  ELSE IF IsNameKey(q[i][1]) /\ (bestRank <= 0 \/ NameRank(Canon(q[i][1])) < bestRank)
+       THEN CodeFoldNameFrom(q, i + 1, NameRank(Canon(q[i][1])), q[i][2][1])
+       ELSE CodeFoldNameFrom(q, i + 1, bestRank, bestVal)
+RECURSIVE CodeFoldIdFrom(_, _, _, _)
+CodeFoldIdFrom(q, i, bestRank, bestVal) ==
+  IF i > Len(q) THEN bestVal
+  ELSE IF IsIdKey(q[i][1]) /\ (bestRank <= 0 \/ IdRank(Canon(q[i][1])) < bestRank)
+       THEN CodeFoldIdFrom(q, i + 1, IdRank(Canon(q[i][1])), q[i][2][1])
+       ELSE CodeFoldIdFrom(q, i + 1, bestRank, bestVal)
+CodeFoldName(q) == CodeFoldNameFrom(q, 1, -1, NONE)
+CodeFoldId(q) == CodeFoldIdFrom(q, 1, -1, NONE)
 SemName(q) == Pick(q, IsNameKey, NameRank)
 SemId(q) == Pick(q, IsIdKey, IdRank)
 SemTypes(initial, q) == initial \cup UNION {{q[i][2][j] : j \in DOMAIN q[i][2]} : i \in {n \in DOMAIN q : IsTypeKey(q[n][1])}}
